@@ -441,9 +441,24 @@ where
     LM: MatchLiteral,
     <T as FromStr>::Err: Debug,
 {
+    // Executing a commutative operator between two numbers earlier is only valid if it does
+    // not overtake a different operator of the same priority on its left, e.g., `10-2+3` with
+    // equal priorities of `-` and `+`.
+    let is_reorderable = |bin_op_idx: usize| {
+        let op = &bin_ops[bin_op_idx];
+        bin_ops[..bin_op_idx]
+            .iter()
+            .rev()
+            .find(|left| left.op.prio <= op.op.prio)
+            .map(|left| left.op.prio < op.op.prio || left.idx == op.idx)
+            .unwrap_or(true)
+    };
     let prio_increase =
         |bin_op_node_idx: usize| match (&nodes[bin_op_node_idx], &nodes[bin_op_node_idx + 1]) {
-            (DeepNode::Num(_), DeepNode::Num(_)) if bin_ops[bin_op_node_idx].op.is_commutative => {
+            (DeepNode::Num(_), DeepNode::Num(_))
+                if bin_ops[bin_op_node_idx].op.is_commutative
+                    && is_reorderable(bin_op_node_idx) =>
+            {
                 let prio_inc = 5;
                 &bin_ops[bin_op_node_idx].op.prio * 10 + prio_inc
             }
